@@ -17,7 +17,7 @@ from ..digest import obj_digest
 
 TITLE = 'minimum separation of groups and of split layers'
 EXPLORER = 'E1'
-CLAUSES = ['C06.group_sep', 'C06.layer_sep', 'C06.merged', 'C06.split2', 'C06.split3', 'C06.remerged_skipped',
+CLAUSES = ['C06.group_sep', 'C06.layer_sep', 'C06.merged', 'C06.split2', 'C06.split3', 'C06.remerged_skipped', 'C06.tied_stamps_split',
            'C06.excluded_run', 'C06.multi_bin', 'C06.on_exact_sep', 'C06.lookback_lt100_nonasc']
 RULE = ('family B: two-deck scenes with gaps {240,250,260,340,440,450,460,...} x lower/upper patterns x counts, two-ceilometer '
         'scenes with offsets, 3-/4-deck chains, decks around a MIN_SEP_LIMS edge, bi-/tri-modal decks; per scene: '
@@ -63,6 +63,13 @@ def variants_for(name, tier):
     for alt in SEP_ALTS:
         for perc in (5, 60, 100):
             out.append(('asc', {**alt, 'BASE_LVL_HEIGHT_PERC': perc}))
+    if name.startswith('sync:'):
+        # tie-break sensitivity: every time stamp is a 4-way tie; many row orders, look-back cuts that fall inside a tie
+        out = []
+        orders = list(scenes.ROW_ORDERS) + ['shuffle%d' % k for k in range(8 if tier == 'quick' else 40)]
+        for order, lb in itertools.product(orders, (35, 45)):
+            out.append((order, {'MIN_SEP_VALS': [100, 1000], 'BASE_LVL_LOOKBACK_PERC': lb}))
+        return out
     if name.startswith('2c:'):
         for excl in (['b'], ['a'], ['b', 'zz']):
             for perc, lb in itertools.product((5, 100), (100, 50)):
@@ -78,7 +85,7 @@ def bound(tier):
 
 def _scene_list(tier):
     return (_deckfam.two_deck_scenes(tier) + _deckfam.two_ceilo_scenes(tier) + _deckfam.chain_scenes(tier)
-            + _deckfam.edge_scenes(tier) + _deckfam.split_scenes(tier))
+            + _deckfam.edge_scenes(tier) + _deckfam.split_scenes(tier) + _deckfam.sync_tie_scenes(tier))
 
 
 def cases(tier):
@@ -106,8 +113,12 @@ def run_case(case):
     if 'only_variant' in case:
         variants = variants[:case['only_variant'] + 1]
     for vi, (order, prms) in enumerate(variants):
-        spec = dict(case['scene']); spec['order'] = order
-        rows = scenes.build(spec)
+        spec = dict(case['scene'])
+        if spec.get('gen') == 'rows':
+            rows = scenes.reorder(scenes.build(spec), order)
+        else:
+            spec['order'] = order
+            rows = scenes.build(spec)
         del _RAW[:]
         r = pipeline.run(rows, prms, msgs=False)
         res['n'] += 1
@@ -162,6 +173,8 @@ def run_case(case):
                 seps = min_seps_for(g['height_base'], prms)
                 if pipeline.effective(prms, 'BASE_LVL_LOOKBACK_PERC') < 100 and order != 'asc':
                     hit('C06.lookback_lt100_nonasc')
+                if case['name'].startswith('sync:'):
+                    hit('C06.tied_stamps_split')
                 for lo, up in zip(lb_, lb_[1:]):
                     hit('C06.layer_sep')
                     if up - lo in seps:
